@@ -75,6 +75,13 @@ CLAIMS = {
         note=A1 + 'ASSUMED callee contracts: Quadratic/Polynomial::partial_evaluate (see C03). The logging-only loop over missing parameters is dropped by a declared substitution.',
         technique='contract-based deductive verification (Verus) of mechanically extracted Rust functions',
         ref='DESIGN 6 C10'),
+    'C13': dict(
+        text='Deductive proof (Verus) of the real text of Instance::convert_inequality_to_equality_with_integer_slack and add_integer_slack_to_inequality: every rejection (unknown id, not an inequality, no function, undefined or non-integer used variable, slack range above the limit) leaves the instance unchanged; '
+             'when the interval enclosure is <= 0 the constraint is moved to the removed list unchanged; otherwise exactly one fresh integer slack variable with bound [0,-L] (resp. [0,S]) tagged with the constraint id is appended and the constraint (same position, id, metadata) becomes f + s/a = 0 (resp. f + b*s <= 0 with b = -lower/S reported), L being a lower bound of a*f on the integer points of the box. '
+             'Ghost lemmas: f(x) <= 0 <=> exists integer s in [0,-L]: f(x)+s/a = 0, and the projection statement for b*s.',
+        note=A1 + 'ASSUMED callee contracts: content_factor (a*f integer-valued on integer points), evaluate_bound (enclosure), get_kinds, used ids, defined_ids, f64*Function and Function+Linear (pure, value up to an explicit remainder); A3: as_integer_bound returns (it panics on an interval without an integer). Preconditions (observations): no id overflow, oneofs set. Defect D2 (equality constraints accepted) found by this check and repaired in /repo.',
+        technique='contract-based deductive verification (Verus) of mechanically extracted Rust functions (prophecy-style &mut contracts) + arithmetic ghost lemmas',
+        ref='DESIGN 6 C13'),
 }
 NA = {
     'C06': 'evaluate_samples is built from FnMut closures capturing &mut state and iterator adapters over HashMap<OrderedFloat,..>: rejected by Verus, far beyond measured Kani limits; leaf lookups alone do not decide the property (DESIGN 6 C06)',
